@@ -23,6 +23,7 @@ path, never by module name (repair 0289afb); another monitor's raw costs are
 only read through the k conversion (repair d697a4c).
 Round 6: monitors._load reads the file at the given path too (repair 5a846ca);
 an id of 0 is an id (no truth-value tests on recorded ids).
+Review of the repairs: the reporting monitors test the cost's ndim attribute, they do not convert the cost (C20.r); read_import removes from sys.path the entry it added (C20.s).
 NOT decided: textual round trip of particular float/array values.
 """
 import ast
@@ -747,4 +748,30 @@ def reporting_monitors_take_a_zero_d_cost_as_a_scalar(ctx):
                 ctx.check('ndim' in unparse(st.test), '%s#cost-is-vector@%d' % (fi.qualname, n), 'a 0-d cost is a scalar here too (%s)' % ' '.join(unparse(st.test).split())[:60],
                           '%s decides with `%s` that the cost is a vector and then indexes the stored record with [best]: a 0-d array passes the test but was stored as a scalar, so Powell\'s first record raises IndexError when all=False'
                           % (fi.qualname, ' '.join(unparse(st.test).split())), fi, st)
+                # ... and the test only LOOKS at the cost: numpy.ndim / shape / size / asarray convert their argument first, which raises for the
+                # ragged records the monitors otherwise print as they are ([cost, [gradient...]]) - after Monitor.__call__ has stored the step
+                conv = [c for c in ast.walk(st.test) if isinstance(c, ast.Call) and callee_text(c).split('.')[-1] in ('ndim', 'shape', 'size', 'asarray', 'array', 'atleast_1d')
+                        and c.args and isinstance(c.args[0], ast.Name) and c.args[0].id == 'y']
+                ctx.check(not conv, '%s#cost-not-converted@%d' % (fi.qualname, n), 'the test reads an attribute of the cost, it does not convert it',
+                          '%s decides that the cost is a scalar with %s, which converts the cost to an array first: a ragged record (a cost with its gradient, [1.0, [2.0, 3.0]]) raises ValueError here - after the step has been stored, so the monitor and its log disagree'
+                          % (fi.qualname, ' '.join(unparse(conv[0]).split()) if conv else ''), fi, st)
     ctx.need(n >= 3, 'expected the three reporting monitors (verbose, logging, verbose-logging), found %d' % n)
+
+
+@rule('C20.s', min_instances=1)
+def read_import_leaves_sys_path_as_it_found_it(ctx):
+    """read_import puts the directory of the log file on sys.path while it executes the file (the file may import its neighbours) and takes it off again: it removes THE ENTRY IT ADDED (sys.path.remove(<the same expression>), in a finally) - not whatever is first (pop(0)): a file that inserts into sys.path itself would lose its entry and leave the log directory behind, and every later read by module name (C20.i) would search it"""
+    f = ctx.func(MU + ':read_import')
+    ins = [c for c in ast.walk(f.node) if isinstance(c, ast.Call) and ' '.join(unparse(c.func).split()) in ('sys.path.insert', 'sys.path.append')]
+    pops = [c for c in ast.walk(f.node) if isinstance(c, ast.Call) and ' '.join(unparse(c.func).split()) == 'sys.path.pop']
+    dels = [d for d in ast.walk(f.node) if isinstance(d, ast.Delete) and any('sys.path' in unparse(t_) for t_ in d.targets)]
+    if not ins:
+        ctx.ok('read_import#sys.path', 'sys.path is not modified', f, f.node)
+        return
+    for c in ins:
+        entry = c.args[-1]
+        rem = [r for r in ast.walk(f.node) if isinstance(r, ast.Call) and ' '.join(unparse(r.func).split()) == 'sys.path.remove' and r.args and same(r.args[0], entry)]
+        in_finally = [r for r in rem if any(isinstance(p_, ast.Try) and any(r in list(ast.walk(fb)) for fb in p_.finalbody) for p_ in ast.walk(f.node))]
+        ctx.check(bool(in_finally) and not pops and not dels, 'read_import#sys.path', 'the entry added is the entry removed (in a finally)',
+                  'read_import adds %s to sys.path and %s: an entry the file itself inserted is dropped and the log directory stays on sys.path' %
+                  (' '.join(unparse(entry).split())[:40], 'takes off whatever is first (%s)' % ' '.join(unparse((pops or dels)[0]).split())[:40] if (pops or dels) else 'does not remove it on every exit'), f, enclosing_stmt(c))
